@@ -340,7 +340,55 @@ def enum_switch(tier, shard, nshards):
                         idx += 1
 
 
+def judge_ace_number(case) -> Verdict:
+    """A port number that has a name on SOME platform/version: inside an ACE, in source and in destination
+    position, the rendered name must belong to THIS platform/version table and re-read to the number."""
+    from cisco_acl import Ace
+    from cisco_acl.port_name import PortName
+
+    v = Verdict()
+    platform, version, proto, nr = case["platform"], case["version"], case["proto"], case["nr"]
+    table = PortName(proto, platform, version).names()
+    kw = dict(platform=platform, version=version)
+    for text in (f"permit {proto} any eq {nr} any", f"permit {proto} any any eq {nr}", f"permit {proto} any eq {nr} any eq {nr} log"):
+        ace = Ace(text, **kw)
+        for port in (ace.srcport, ace.dstport):
+            if not port.line:
+                continue
+            tok = port.line.split()[-1]
+            if port.ports != [nr]:
+                v.fail("acenum:parsed-as-other-number", {"case": case, "text": text})
+            if not tok.isdigit() and table.get(tok) != nr:
+                v.fail("acenum:renders-name-not-valid-for-platform-version", {"case": case, "text": text, "line": ace.line})
+            if tok.isdigit() and nr in table.values():
+                v.fail("acenum:named-port-rendered-as-number", {"case": case, "text": text, "line": ace.line})
+        try:
+            back = Ace(ace.line, **kw)
+        except ValueError as ex:
+            v.fail("acenum:rendered-line-rejected", {"case": case, "text": text, "line": ace.line, "error": str(ex)[:160]})
+            continue
+        if (back.srcport.ports, back.dstport.ports, back.option.line) != (ace.srcport.ports, ace.dstport.ports, ace.option.line):
+            v.fail("acenum:rendered-line-rereads-differently", {"case": case, "text": text, "line": ace.line})
+    v.nt(nr in table.values())
+    v.label("named-here" if nr in table.values() else "named-elsewhere-only")
+    return v
+
+
+def enum_ace_numbers(tier, shard, nshards):
+    from lib import gen as G
+
+    idx = 0
+    for platform in ("ios", "nxos"):
+        for version in VERSIONS:
+            for proto in PROTOS:
+                for nr in G.named_anywhere():
+                    if idx % nshards == shard:
+                        yield {"platform": platform, "version": version, "proto": proto, "nr": nr}
+                    idx += 1
+
+
 SUBS = [
+    Sub("ace-numbers", judge_ace_number, enum=enum_ace_numbers, quick=1, thorough=1, exhaustive=True, exhaustive_quick=True),
     Sub("switch", judge_switch, enum=enum_switch, quick=1, thorough=1, exhaustive=True, exhaustive_quick=True),
     Sub("names", judge_name, enum=enum_names, quick=1, thorough=1, exhaustive=True, exhaustive_quick=True),
     Sub("must", judge_must, enum=enum_must, quick=1, thorough=1, shards_quick=4, shards_thorough=4,
